@@ -231,6 +231,16 @@ def odd_cases(tier):
             for rest in (["ls"], ["rm", "x"]):
                 words = [tool] + pre + [name] + rest
                 cases.append(Case(q(words), words, tool, f"{tool} | command named {name}", " ".join([name] + rest), validate=False))
+    # a NAME=value word behind a wrapper PROGRAM is the name of the program it runs (only bash reads assignments): the
+    # stub called A=1 is really executed; `time` is a keyword, bash reads the assignment itself
+    for tool, pre in (("nohup", []), ("command", []), ("nice", []), ("nice", ["-n", "5"]), ("timeout", ["5"]), ("timeout", ["-s", "KILL", "5"]),
+                      ("nohup", ["nice"]), ("command", ["--"])):
+        for name in ("A=1", "B[0]+=x"):
+            for rest in ([], ["ls"], ["rm", "x"], ["ls", "--help"]):
+                words = [tool] + pre + [name] + rest
+                cases.append(Case(q(words), words, tool, f"{tool} | command named like an assignment {name}", " ".join([name] + rest), validate=False))
+    for rest in (["ls"], ["rm", "x"]):
+        cases.append(Case("time A=1 " + " ".join(rest), ["time", "A=1"] + rest, "time", "time | keyword, then a real assignment", " ".join(rest), validate=False))
     words = ["timeout", "5", "--", "ls"]
     cases.append(Case(q(words), words, "timeout", "timeout | -- after the duration", "-- ls", validate=False))
     words = ["xargs", "-e", "STOP", "head"]
